@@ -252,9 +252,9 @@ func freeOne(r *hx.Run, raceBin, bundleDir, scratch string, i int, sc scenario, 
 // runFree is called by the parent after E1/E4. raceBin may be missing (then goroutine rounds are skipped).
 func runFree(r *hx.Run, self, bundleDir, scratch string, only *scenario) map[string]any {
 	out := map[string]any{"role": "supplementary free-running pass: validates E1's assumption that FileCache users share no memory (race detector) and samples real schedules of goroutines and processes under the same oracle; not exhaustive, not a deciding step"}
-	rounds, deadline, procRounds := 150, 20, 12
+	rounds, deadline, procRounds := 150, int(hx.Budget(20*time.Second)/time.Second), 12
 	if r.Thorough() {
-		rounds, deadline, procRounds = 4000, 240, 150
+		rounds, deadline, procRounds = 4000, int(hx.Budget(240*time.Second)/time.Second), 150
 	}
 	raceBin := self + ".race"
 	if _, err := os.Stat(raceBin); err != nil {
